@@ -200,18 +200,37 @@ def e2e_binding(work):
     return out
 
 
+def proofs():
+    """TLAPS: the parametric (any number of peers) proofs under spec/proofs are re-checked."""
+    import re
+    import shutil
+    out = []
+    pdir = os.path.join(VERIF, "spec", "proofs")
+    for mod in sorted(f[:-4] for f in os.listdir(pdir) if f.endswith("Proof.tla")):
+        shutil.rmtree(os.path.join(pdir, ".tlacache"), ignore_errors=True)
+        p = sh(["tlapm", "--threads", "6", "-I", "..", mod + ".tla"], cwd=pdir, timeout=900, check=False)
+        m = re.search(r"All (\d+) obligations proved", p.stdout or "")
+        out.append({"module": mod, "all_proved": bool(m), "obligations": int(m.group(1)) if m else None,
+                    "tail": "" if m else (p.stdout or "")[-800:]})
+        log("[selftest] TLAPS %s: %s" % (mod, ("all %s obligations proved" % m.group(1)) if m else "NOT proved"))
+        shutil.rmtree(os.path.join(pdir, ".tlacache"), ignore_errors=True)
+    return out
+
+
 def run():
     build_harness()
     work = Work("selftest")
     try:
         dev = deviations(work)
         tb = trace_binding(work) + e2e_binding(work)
+        pr = proofs()
     finally:
         work.cleanup()
-    res = {"deviation_constants": dev, "trace_binding": tb}
+    res = {"deviation_constants": dev, "trace_binding": tb, "tlaps_proofs": pr}
     with open(os.path.join(VERIF, "selftest_results.json"), "w") as f:
         json.dump(res, f, indent=1)
-    bad = [d for d in dev if not d.get("counterexample_found")] + [t for t in tb if not t["as_expected"]]
+    bad = [d for d in dev if not d.get("counterexample_found")] + [t for t in tb if not t["as_expected"]] + \
+        [x for x in pr if not x["all_proved"]]
     print("selftest: %d deviation constants, %d trace-binding cases, %d unexpected" % (len(dev), len(tb), len(bad)))
     for b in bad:
         print("UNEXPECTED:", json.dumps(b)[:300])
